@@ -224,6 +224,11 @@ class Run:
                     z.set_pruning_policy(lambda zone, v, ids=ids: True if v.id in ids else (None if v.id % 2 else False))
                     self.policy = ("allowed", ids)
                 return "ok"
+            if tok[0] == "Q":
+                a, b = (int(x) for x in tok[1:].split(":"))
+                z.set_pruning_policy(lambda zone, v, a=a, b=b: (a * len(zone._versions) + v.id) % (b + 2) != 0)
+                self.policy = ("modp", a, b)
+                return "ok"
             if tok[0] == "O":
                 h = int(tok[1:])
                 txn = self.readers[h]
@@ -247,6 +252,8 @@ def policy_allows(policy, nvers, v):
         return nvers > policy[1]
     if policy[0] == "unlimited":
         return False
+    if policy[0] == "modp":
+        return (policy[1] * nvers + v.id) % (policy[2] + 2) != 0
     return v.id in policy[1]
 
 
@@ -287,7 +294,20 @@ def monitor(run, tok, out, before, fails):
         bad("pruning-exact/left-over", f"oldest retained {vs[0].id} is below every pin/newest ({least}) and the policy {run.policy} allows pruning it")
     # ... and everything dropped by this operation was prunable when it was dropped
     bvs, bpolicy = before
-    if tok[0] in "cCMP" and not out.startswith("E"):
+    # reader(id=) / reader(serial=): the version chosen
+    if tok[0] == "o" and tok[1] in "IS":
+        want = int(tok[2:].split(":")[1])
+        if tok[1] == "I":
+            cands = [v for v in bvs_all(before) if v.id == want]
+        else:
+            cands = [v for v in bvs_all(before) if serial_of(v, z) == want]
+        if out.startswith("P"):
+            got = int(out[1:].split(":")[0])
+            if not cands or got != max(v.id for v in cands):
+                bad("reader-lookup", f"opened on version {got}; retained versions matching the request: {[v.id for v in cands]} (the newest must be chosen)")
+        elif out == "EKeyError" and cands:
+            bad("reader-lookup", f"KeyError although retained versions {[v.id for v in cands]} match the request")
+    if tok[0] in "cCMPQ" and not out.startswith("E"):
         cur = list(bvs)
         if tok[0] == "C" and tok.endswith(":1"):
             cur = cur + [vs[-1]]
@@ -310,6 +330,10 @@ def monitor(run, tok, out, before, fails):
             bad("snapshot-stable", f"reader {h} on version {run.readers[h].version.id} observed {d0} when opened and now observes {d}")
         elif d and d[0] == "INCONSISTENT":
             bad("snapshot-consistent", f"reader {h}: iterate_rdatasets / get / get_node disagree: {d}")
+
+
+def bvs_all(before):
+    return before[0]
 
 
 def eval_history(ctx: Ctx, case: dict):
@@ -702,7 +726,7 @@ def mutator_methods(o, zone, pool):
     return MUT_CACHE[t]
 
 
-def attack(o, zone, pool, changed_fn):
+def attack(o, zone, pool, changed_fn, attrs=True):
     """call every mutator of `o` (methods first, then attribute stores / deletes); returns (calls, problem) where
     problem is None or (what, clause) for the first call that did not raise although it mutates a mutable twin of
     the object, or after which the snapshots differ"""
@@ -730,7 +754,7 @@ def attack(o, zone, pool, changed_fn):
                         return calls, (f"{m}{fmt_args(args)}", "no-raise")
     if changed_fn():
         return calls, ("(a mutator call that raised)", "changed")
-    for a in public_attrs(o):
+    for a in (public_attrs(o) if attrs else []):
         for kind in ("set", "del"):
             try:
                 if kind == "set":
@@ -836,6 +860,71 @@ def eval_immhist(ctx: Ctx, case: dict):
     return fails
 
 
+def eval_fresh(ctx: Ctx, case: dict):
+    """regression witness of the repaired defect "version 1 of a fresh versioned / B-tree zone is mutable": before any
+    commit, nothing but a transaction may alter the zone, and a reader pinned on version 1 keeps seeing the empty zone"""
+    zk = case["zone"]
+    z = ZONES[zk](ORIGIN)
+    r0 = z.reader()
+    fails = []
+
+    def snap():
+        return ([dump_version(v) for v in z._versions], dump_txn(r0), [v.id for v in z._versions])
+
+    base = snap()
+
+    def changed():
+        try:
+            return snap() != base
+        except Exception:  # noqa: BLE001
+            return True
+
+    sig = SIG_INIT.format(z=zk)
+    name = dns.name.from_text("x", None)
+    direct = [
+        ("zone[name] = node", lambda: z.__setitem__(name, z.node_factory())),
+        ("zone.nodes[name] = node", lambda: z.nodes.__setitem__(name, z.node_factory())),
+        ("reader.version.nodes[name] = node", lambda: r0.version.nodes.__setitem__(name, z.node_factory())),
+        ("zone.replace_rdataset", lambda: z.replace_rdataset(name, dns.rdataset.from_text("IN", "TXT", 5, '"x"'))),
+        ("zone.find_node(create=True)", lambda: z.find_node(name, create=True)),
+        ("zone.find_rdataset(create=True)", lambda: z.find_rdataset(name, "TXT", create=True)),
+    ]
+    for what, fn in direct:
+        try:
+            fn()
+            raised = False
+        except Exception:  # noqa: BLE001
+            raised = True
+        if changed() or not raised:
+            fails.append((sig, f"fresh {zk} zone, reader open on version 1: {what} {'did not raise' if not raised else 'raised'}"
+                               f"{' and changed what the reader / version 1 holds' if changed() else ''}"))
+            break
+    if not fails:
+        for label, o, attrs in (("zone.nodes", z.nodes, False), ("reader.version.nodes", r0.version.nodes, False),
+                                ("reader.version", r0.version, True)):
+            n, problem = attack(o, z, arg_pool(z), changed, attrs=attrs)
+            ctx.count("fresh.calls", n)
+            if problem is not None:
+                fails.append((sig, f"fresh {zk} zone, reader open on version 1: {label}.{problem[0]}: {problem[1]}"))
+                break
+    if not fails:
+        # ... and the first ordinary (non-replacement) writer works on it and leaves the pinned reader alone
+        try:
+            with z.writer() as txn:
+                txn.replace(name, dns.rdataset.from_text("IN", "TXT", 5, '"x"'))
+            if dump_txn(r0) != base[1]:
+                fails.append((f"C11/{zk}/snapshot-stable", "reader on version 1 changed after the first commit"))
+        except Exception as e:  # noqa: BLE001
+            fails.append((f"C11/{zk}/initial-version/first-writer-raises", f"Zone.writer() on a fresh {zk} zone raised {e!r}"))
+    try:
+        r0.rollback()
+    except Exception:  # noqa: BLE001
+        pass
+    for s_, what in fails:
+        ctx.fail(s_, what, {"kind": "fresh", "case": case})
+    return fails
+
+
 def gen_immhist(rng, zk):
     ntx = rng.range(2, 5)
     txns = []
@@ -897,6 +986,8 @@ def eval_case(ctx: Ctx, case: dict):
             return eval_immutability(ctx, case)
         if case["kind"] == "immhist":
             return eval_immhist(ctx, case)
+        if case["kind"] == "fresh":
+            return eval_fresh(ctx, case)
     except Exception as e:  # noqa: BLE001 - e.g. the zone constructor itself raises (the initial version is pruned away)
         import traceback
 
@@ -970,9 +1061,11 @@ def gen_history(rng, zk):
         elif x < 78:
             ops.append("M" + rng.choice(["none", "-1", "0", "1", "1", "2", "2", "3", "4"]))
         elif x < 88:
-            y = rng.below(4)
+            y = rng.below(5)
             if y == 0:
                 ops.append("Pnone")
+            elif y == 4:
+                ops.append(f"Q{rng.below(3)}:{rng.below(3)}")
             else:
                 ids = sorted(set(rng.range(1, newest + 2) for _ in range(rng.below(5))))
                 ops.append("P" + (",".join(map(str, ids)) if ids else "."))
@@ -1029,6 +1122,10 @@ BOUNDARY = [
     ["Mnone", "w", "C1:1:1", "w", "C2:2:1", "oI1:2", "w", "C3:3:1", "Pnone", "c1"],
     # empty commit and rollback make no version; bad max
     ["w", "C1:-:0", "w", "R", "w", "C1:-:1", "M0", "M-1", "M1"],
+    # several retained versions with the same serial: reader(serial=) takes the newest; a pruned serial -> KeyError
+    ["Mnone", "w", "C1:6:1", "w", "C2:6:1", "w", "C3:7:1", "w", "C4:6:1", "oS1:6", "oS2:7", "oS3:5", "O1", "M1", "c1", "c2", "oS4:7", "oS5:6"],
+    # policies that are monotone neither in the id nor in the count
+    ["Q1:1", "w", "C1:1:1", "w", "C2:2:1", "w", "C3:3:1", "Q0:0", "w", "C4:4:1", "Q2:1", "w", "C5:5:1", "Pnone"],
 ]
 
 
@@ -1083,7 +1180,7 @@ def replay(ctx: Ctx, obj: dict):
 
 
 LEVEL = {
-    "text": "Lean 4 theorems, by induction over arbitrary operation lists (reader open by latest/id/serial, close, writer open, commit, empty commit, rollback, set_max_versions, set_pruning_policy with an arbitrary predicate), about an executable model of dns/versioned.py's version deque, reader set and _prune_versions_unlocked: version ids strictly increase and are consecutive; the retained versions are a suffix of everything ever committed (a contiguous run containing the newest); every version pinned by an open reader is retained; pruning drops exactly the longest prefix the policy allows below the smallest pin / the newest, and in every reachable state nothing prunable is left at the front; what a reader observes never changes while it is open. The model is tied to both dns.versioned.Zone and dns.btreezone.Zone by a differential correspondence check after every operation. Immutability of everything reachable from a snapshot is established by enumerating, on every run, every public callable, in-place operator and attribute store of every reachable object and checking that mutating calls raise and nothing changes, both on a fixed snapshot and after generated write histories (cuts created/removed above existing names, nested cuts, node deletes) through every public route to every retained version's nodes (partial: enumeration, not proof).",
+    "text": "Lean 4 theorems, by induction over arbitrary operation lists (reader open by latest/id/serial, close, writer open, commit, empty commit, rollback, set_max_versions, set_pruning_policy with an arbitrary predicate), about an executable model of dns/versioned.py's version deque, reader set and _prune_versions_unlocked: version ids strictly increase and are consecutive; the retained versions are a suffix of everything ever committed (a contiguous run containing the newest); every version pinned by an open reader is retained; for an arbitrary pure policy callable of (number retained, version) - monotone or not - pruning retains the longest suffix of the deque whose first version is not prunable at its turn (at or above the smallest pin / the newest, or refused by the policy), drops exactly the prefix before it, and in every reachable state nothing prunable is left at the front; reader(serial=) opens the newest retained version with that serial and reader(id=) the one with that id, KeyError exactly when there is none; what a reader observes never changes while it is open. The model is tied to both dns.versioned.Zone and dns.btreezone.Zone by a differential correspondence check after every operation. Immutability of everything reachable from a snapshot is established by enumerating, on every run, every public callable, in-place operator and attribute store of every reachable object and checking that mutating calls raise and nothing changes, both on a fixed snapshot and after generated write histories (cuts created/removed above existing names, nested cuts, node deletes) through every public route to every retained version's nodes (partial: enumeration, not proof).",
     "note": "Trusted: Lean kernel + standard axioms; the statements in lean/Props/C11.lean; the correspondence harness and its generators; Python reference semantics (a transaction keeps its version object alive). Versions are persistent values in the model, so snapshot isolation is true by construction there and its real content is carried by the correspondence check and the enumeration. Writer admission under concurrency is C12.",
     "technique": "Lean 4 proof (state invariants by induction over operation lists, exact characterisation of the pruning loop) + model-vs-implementation correspondence + enumeration of the mutator surface",
     "design_ref": "DESIGN.md §7 C11",
